@@ -39,6 +39,7 @@ SPECIAL = [
     ('symdir', lambda: ('ln', L('.'))),          # link to the containing directory (a directory)
     ('symfile', lambda: ('lf', L('/etc/hostname'))),
     ('dangling', lambda: ('dg', L('nowhere'))),
+    ('selfloop', lambda: ('lp', L('lp'))),
     ('fifo', lambda: ('pp', {'t': 'p'})),
     ('socket', lambda: ('so', {'t': 's'})),
     ('space', lambda: ('a b', F(2))),
@@ -153,7 +154,11 @@ def groups(tier, seed):
             for kind, mk in SPECIAL:
                 name, node = mk()
                 t2 = subst(tree, leaf, name, node)
-                yield {'tree': t2, 'cases': cases_for(t2, tier, special=True), 'layer': 'subst-' + kind}
+                cs = cases_for(t2, tier, special=True)
+                if kind in ('symfile', 'dangling', 'selfloop'):
+                    # links that lead to no directory change nothing when `symlinks` is given
+                    cs = cs + [dict(c, sym=True) for c in cs if c['roots'][0][0] == 'dot']
+                yield {'tree': t2, 'cases': cs, 'layer': 'subst-' + kind}
     # every readdir arrival order (shim) of directories with <= 4 entries
     for sh in shapes:
         tree = core.shape_to_tree(sh)
@@ -276,6 +281,8 @@ def eval_case(env, tree, holder, troot, topdirs, case, layer, jail_tree):
         cwdkind = ck
         if arg is not None:
             argv += ['from', arg] if i == 0 else [',', arg]
+        if case.get('sym'):
+            argv += ['symlinks']
         if a is not None:
             argv += ['mindepth', str(a)]
         if b is not None:
